@@ -4,8 +4,11 @@ from __future__ import annotations
 import itertools
 import time
 
+import numpy as np
+
 from .. import opcat_nn as cat
-from ..harness import OpCase
+from ..harness import OpCase, T, elem_names, sig_of
+from ..symnum import engine as E
 from .. import runner
 
 PROP = "C02"
@@ -31,7 +34,119 @@ def enumerate_specs(tier):
     return specs
 
 
+# ---------------------------------------------------------------------------------------------- one layer, several calls
+def _layers():
+    """name -> (constructor(nn, env, Tn), input shape, domain of the input)"""
+    def lin(nn, env, Tn):
+        m = nn.Linear(2, 2)
+        m.weight = nn.Parameter(Tn(env.arr("W", (2, 2)), requires_grad=True))
+        m.bias = nn.Parameter(Tn(env.arr("b", (2,)), requires_grad=True))
+        return m, [("W", m.weight, (2, 2)), ("b", m.bias, (2,))]
+
+    def conv1(nn, env, Tn):
+        m = nn.Conv1d(1, 1, 2)
+        m.weight = nn.Parameter(Tn(env.arr("W", (1, 1, 2)), requires_grad=True))
+        m.bias = nn.Parameter(Tn(env.arr("b", (1,)), requires_grad=True))
+        return m, [("W", m.weight, (1, 1, 2)), ("b", m.bias, (1,))]
+
+    def conv2(nn, env, Tn):
+        m = nn.Conv2d(1, 1, 2)
+        m.weight = nn.Parameter(Tn(env.arr("W", (1, 1, 2, 2)), requires_grad=True))
+        m.bias = nn.Parameter(Tn(env.arr("b", (1,)), requires_grad=True))
+        return m, [("W", m.weight, (1, 1, 2, 2)), ("b", m.bias, (1,))]
+
+    def bn(training, track=True):
+        def mk(nn, env, Tn):
+            m = nn.BatchNorm1d(1, eps=env.scalar("eps", lo=0, hi=0.5, lo_strict=True, kind="data"),
+                               momentum=env.scalar("mom", lo=0, hi=1, lo_strict=True, hi_strict=True, kind="data"),
+                               track_running_stats=track)
+            m.weight = nn.Parameter(Tn(env.arr("gamma", (1,)), requires_grad=True))
+            m.bias = nn.Parameter(Tn(env.arr("beta", (1,)), requires_grad=True))
+            if track:
+                m.running_mean = Tn(env.arr("rm", (1,)))
+                m.running_var = Tn(env.arr("rv", (1,), lo=0.1, hi=3))
+            if not training:
+                m.eval()
+            return m, [("gamma", m.weight, (1,)), ("beta", m.bias, (1,))]
+        return mk
+    plain = lambda f: (lambda nn, env, Tn: (f(nn), []))      # noqa: E731
+    return {
+        "Dropout(0.5)": (plain(lambda nn: nn.Dropout(0.5)), (2,), {}),
+        "Dropout(0.75)": (plain(lambda nn: nn.Dropout(0.75)), (1, 2), {}),
+        "BatchNorm1d train": (bn(True), (2, 1), {}),
+        "BatchNorm1d eval": (bn(False), (2, 1), {}),
+        "BatchNorm1d no stats": (bn(True, False), (2, 1), {}),
+        "Linear": (lin, (1, 2), {}),
+        "Conv1d": (conv1, (1, 1, 3), {}),
+        "Conv2d": (conv2, (1, 1, 2, 2), {}),
+        "MaxPool1d": (plain(lambda nn: nn.MaxPool1d(2)), (1, 1, 2), {}),
+        "MaxPool2d": (plain(lambda nn: nn.MaxPool2d(2)), (1, 1, 2, 2), {}),
+        "AvgPool1d": (plain(lambda nn: nn.AvgPool1d(2)), (1, 1, 2), {}),
+        "AvgPool2d": (plain(lambda nn: nn.AvgPool2d(2)), (1, 1, 2, 2), {}),
+        "ReLU": (plain(lambda nn: nn.ReLU()), (2,), {}),
+        "LeakyReLU": (plain(lambda nn: nn.LeakyReLU(0.25)), (2,), {}),
+        "SELU": (plain(lambda nn: nn.SELU()), (2,), {}),
+        "Tanh": (plain(lambda nn: nn.Tanh()), (2,), {}),
+        "Sigmoid": (plain(lambda nn: nn.Sigmoid()), (2,), {}),
+        "Softmax": (plain(lambda nn: nn.Softmax(1)), (1, 2), {}),
+        "LogSoftmax": (plain(lambda nn: nn.LogSoftmax(1)), (1, 2), {}),
+        "Flatten": (plain(lambda nn: nn.Flatten()), (1, 2, 1), {}),
+        "Unfold": (plain(lambda nn: nn.Unfold(2)), (1, 1, 2, 3), {}),
+        "Fold": (plain(lambda nn: nn.Fold((2, 2), 1)), (1, 1, 4), {}),
+    }
+
+
+class SharedLayerCase:
+    """one layer *instance* applied to several inputs before any backward runs (a layer shared by two branches, an unrolled
+    loop): every input still receives the VJP of the function its own forward call computed, whatever the layer keeps
+    between calls; parameters receive the sum."""
+    prop = PROP
+
+    def __init__(self, spec):
+        self.spec = spec
+        self.sig = sig_of("shared-layer", spec, None)
+
+    def run(self, env):
+        from synapgrad import nn
+        Tn = T()
+        out = E.Outcome()
+        mk, shape, dom = _layers()[self.spec["layer"]]
+        m, params = mk(nn, env, Tn)
+        xs, ys = [], []
+        for k in range(self.spec["calls"]):
+            x = Tn(env.arr("x%d" % k, shape, **dom), requires_grad=True)
+            xs.append(x)
+            ys.append(m(x))
+        order = list(range(len(ys)))
+        if self.spec["order"] == "reverse":
+            order.reverse()
+        gs = {}
+        for k in order:
+            g = env.arr("g%d" % k, ys[k].shape, lo=-2, hi=2)
+            gs[k] = g
+            ys[k].backward(Tn(g))
+        out.vjp = dict(outs=[ys[k].data for k in order], gs=[gs[k] for k in order],
+                       inputs=[("x%d" % k, x.data, x._grad, True) for k, x in enumerate(xs)] +
+                              [(lab, t.data, t._grad, True) for lab, t, _ in params])
+        names = {"x%d" % k: elem_names("x%d" % k, shape) for k in range(len(xs))}
+        names.update({lab: elem_names(lab, sh) for lab, t, sh in params})
+        out.notes["names"] = names
+        return out
+
+
+def shared_specs(tier):
+    specs = []
+    for name in _layers():
+        for order in ("forward", "reverse"):
+            specs.append({"shared": {"layer": name, "calls": 2, "order": order}})
+        if tier != "quick":
+            specs.append({"shared": {"layer": name, "calls": 3, "order": "reverse"}})
+    return specs
+
+
 def build(spec):
+    if "shared" in spec:
+        return SharedLayerCase(spec["shared"])
     return OpCase(PROP, cat.REG[spec["op"]], spec["args"], spec.get("variant"))
 
 
@@ -39,12 +154,15 @@ def main(tier, seed):
     t0 = time.time()
     specs = enumerate_specs(tier)
     results = runner.run_pool(__name__, specs, tier, seed, optkw={"ties": True}, chain=4)
+    results += runner.run_pool(__name__, shared_specs(tier), tier, seed)
     return runner.finish(
         PROP, tier, seed, results, t0,
         bounds={"spatial": "L<=6, H,W<=4", "kernel": "k<=3", "stride": "<=3 (1d) / <=2 (2d)", "padding": "<=2 (1d) / <=1 (2d)",
                 "dilation": "<=2", "batch/channels": "<=2 (3 for batch norm)", "classes": "<=3",
                 "max-pool": "configurations whose arg-max pattern count exceeds the path budget are skipped",
-                "ops": sorted(cat.REG)},
+                "ops": sorted(cat.REG),
+                "shared layers": "one instance of each of %d layers applied to 2 (thorough: 3) inputs before the backward calls, "
+                                 "in both backward orders" % len(_layers())},
         assumptions=["floats are modelled as reals (no rounding)",
                      "two-way kinks/ties (relu family at 0, one tied pair in a pooling window) are examined separately: the gradient must lie on the segment between the gradients of the two adjacent smooth pieces; higher-order ties are outside the claim",
                      "cpu_ops.epsilon := 0 for log_softmax / BCE / BCE-with-logits / cross-entropy (guard effects belong to C09)",
